@@ -303,6 +303,28 @@ fn main() {
             }
         }
     }
+    // C14, last sentence: the literal report of the instrumented run equals the report of a run with nothing enabled
+    let literals_uninstrumented: Option<Vec<(String, usize, usize, Option<String>)>> = {
+        let cfg0 = rewriter::Config {
+            chain_source_map: false,
+            print_comments: config.print_comments,
+            local_var_prefix: config.local_var_prefix.clone(),
+            csi_methods: CsiMethods::new(&Vec::new()),
+            verbosity: TelemetryVerbosity::Off,
+            literals: config.literals,
+            file_prefix_code: Vec::new(),
+        };
+        let r0 = std::panic::catch_unwind(std::panic::AssertUnwindSafe(|| rewriter::rewrite_js(w.source.clone(), &w.file_name, &cfg0, &MemReader { files: w.files.clone() })));
+        match r0 {
+            Ok(Ok(o)) => o.literals_result.map(|l| {
+                let mut v = vec![];
+                for li in &l.literals { for loc in &li.locations { v.push((li.value.clone(), loc.line, loc.column, loc.ident.clone())); } }
+                v.sort();
+                v
+            }),
+            _ => None,
+        }
+    };
     let hooks = count_hooks(&code) as i64;
     // wasm-side shaping through the cfg(dd_iast_verif) accessors: metrics of a fresh status for this file name, and defaults
     let m = lib_wasm::verif_hooks::metrics(Some(transform::transform_status::TransformStatus::not_modified(&config)), &w.file_name);
@@ -346,6 +368,32 @@ fn main() {
                     let (_, mis) = map_position_checks(&content, &w.source);
                     println!("--- copied identifier mapped elsewhere: {:?}", mis);
                     mis.is_some() == v.as_bool().unwrap()
+                }
+                // every reported occurrence sits on an opening quote of the input, followed by the literal's text
+                "literal_not_at_reported_position" => {
+                    // columns are counted in UTF-16 code units (what JavaScript tooling uses); an astral character is two units,
+                    // represented here by two placeholder chars so that indices are unit indices
+                    let lines: Vec<Vec<char>> = w.source.split('\n').map(|l| l.chars().flat_map(|c| if c.len_utf16() == 2 { vec!['\u{1}', '\u{1}'] } else { vec![c] }).collect()).collect();
+                    let mut bad = None;
+                    for (val, line, col, _) in &literals {
+                        let plain = !val.chars().any(|c| c == '\\' || c == '\'' || c == '"' || c == '\n' || c == '\r' || c == '`' || c == '\t');
+                        let ok = *line >= 1 && *col >= 1 && lines.get(line - 1).map(|l| {
+                            let q = l.get(col - 1).copied();
+                            let quote_ok = matches!(q, Some('\'') | Some('"') | Some('`'));
+                            let text_ok = !plain || { let rest: String = l.iter().skip(*col).collect(); val.chars().any(|c| c.len_utf16() == 2) || rest.starts_with(val.as_str()) || !rest.contains(q.unwrap_or('"')) };
+                            quote_ok && text_ok
+                        }).unwrap_or(false);
+                        if !ok && bad.is_none() { bad = Some(format!("{:?} reported at {}:{}", val, line, col)); }
+                    }
+                    println!("--- literal not at its reported position: {:?}", bad);
+                    (literals_present && bad.is_some()) == v.as_bool().unwrap()
+                }
+                "literals_changed_by_instrumentation" => {
+                    let mut got = literals.clone();
+                    got.sort();
+                    let differs = literals_present && literals_uninstrumented.as_ref().map(|u| *u != got).unwrap_or(false);
+                    if differs { println!("--- literal report with instrumentation {:?} without {:?}", got, literals_uninstrumented); }
+                    differs == v.as_bool().unwrap()
                 }
                 "panics" => panicked == v.as_bool().unwrap(),
                 "errors" => errored.is_some() == v.as_bool().unwrap(),
